@@ -318,8 +318,14 @@ def mpc_outward(f, z, prec, rounding, part):
     wp = prec + 20
     v = f(z, wp)
     x = v[part]
+    if [t for t in v if not t[1] and t[2]]:
+        # an infinite or undefined part (a corner at infinity): there is
+        # no bound in this direction
+        if rounding == round_floor:
+            return fninf
+        return finf
     mags = [t[2]+t[3] for t in v if t[1]]
-    if not mags or (not x[1] and x[2]):
+    if not mags:
         return x
     delta = (0, MPZ_ONE, max(mags) + 10 - wp, 1)
     if rounding == round_floor:
